@@ -770,5 +770,183 @@ theorem splitAtCommonSuffix_refines (a b : Bytes) :
     rw [e3]
     simp [pure, Except.pure]
 
+/-- The bit of byte `c` in the array. -/
+def bit (as : List Nat) (c : Nat) : Bool := (as.getD (c / 32) 0).testBit (c % 32)
+
+theorem u32_one_shl (k : Nat) (hk : k < 32) : u32 (1 <<< k) = 2 ^ k := by
+  unfold u32
+  rw [Nat.one_shiftLeft]
+  exact Nat.mod_eq_of_lt (Nat.pow_lt_pow_right (by omega) hk)
+
+theorem and_two_pow_ne_zero (w k : Nat) : (w &&& 2 ^ k != 0) = w.testBit k := by
+  cases h : w.testBit k
+  · have : w &&& 2 ^ k = 0 := by
+      apply Nat.eq_of_testBit_eq
+      intro i
+      rw [Nat.testBit_and, Nat.testBit_two_pow, Nat.zero_testBit]
+      by_cases hki : k = i
+      · subst hki; simp [h]
+      · simp [hki]
+    simp [this]
+  · have : (w &&& 2 ^ k).testBit k = true := by
+      rw [Nat.testBit_and, Nat.testBit_two_pow, h]; simp
+    have hne : w &&& 2 ^ k ≠ 0 := by
+      intro h0
+      rw [h0, Nat.zero_testBit] at this
+      cases this
+    simp [hne]
+
+theorem idxG_ok {α : Type} [Inhabited α] (s : List α) (i : Nat) (h : i < s.length) : idxG s (i : Int) = .ok (s.getD i default) := by
+  unfold idxG lenG
+  rw [if_pos (by omega)]
+  simp
+
+theorem asciiContains_bit (as : List Nat) (hl : as.length = 8) (c : Nat) (hc : c < 256) :
+    asciiContains as c = .ok (bit as c) := by
+  unfold asciiContains
+  rw [idxG_ok as (c / 32) (by omega)]
+  simp only [bind, Except.bind, pure, Except.pure]
+  rw [u32_one_shl _ (Nat.mod_lt _ (by omega)), and_two_pow_ne_zero]
+  rfl
+
+theorem asciiStep_bit (as : List Nat) (hl : as.length = 8) (d : Nat) (hd : d < 256) :
+    ∃ as', asciiStep as d = .ok as' ∧ as'.length = 8 ∧ ∀ c, c < 256 → bit as' c = (bit as c || c == d) := by
+  unfold asciiStep
+  rw [idxG_ok as (d / 32) (by omega)]
+  simp only [bind, Except.bind]
+  unfold setG lenG
+  rw [if_pos (by omega)]
+  refine ⟨_, rfl, by simp [hl], ?_⟩
+  intro c hc
+  have hdef : (default : Nat) = 0 := rfl
+  simp only [Int.toNat_natCast, hdef]
+  unfold bit
+  rw [u32_one_shl _ (Nat.mod_lt _ (by omega))]
+  by_cases hw : c / 32 = d / 32
+  · have hget : (as.set (d / 32) (u32 (as.getD (d / 32) 0 ||| 2 ^ (d % 32)))).getD (c / 32) 0 = u32 (as.getD (d / 32) 0 ||| 2 ^ (d % 32)) := by
+      rw [hw]
+      simp only [List.getD_eq_getElem?_getD, List.getElem?_set]
+      rw [if_pos trivial, if_pos (by omega)]
+      rfl
+    rw [hget, hw]
+    unfold u32
+    rw [Nat.testBit_mod_two_pow, Nat.testBit_or, Nat.testBit_two_pow]
+    have h32 : c % 32 < 32 := Nat.mod_lt _ (by omega)
+    have : (c == d) = decide (d % 32 = c % 32) := by
+      by_cases hcd : c = d
+      · subst hcd; simp
+      · have : d % 32 ≠ c % 32 := by omega
+        simp [hcd, this]
+    rw [this]
+    simp [h32]
+  · have hget : (as.set (d / 32) (u32 (as.getD (d / 32) 0 ||| 2 ^ (d % 32)))).getD (c / 32) 0 = as.getD (c / 32) 0 := by
+      simp only [List.getD_eq_getElem?_getD, List.getElem?_set]
+      rw [if_neg (fun h => hw h.symm)]
+    rw [hget]
+    have : (c == d) = false := by
+      rw [beq_eq_false_iff_ne]
+      intro h; subst h; exact hw rfl
+    rw [this]
+    simp
+
+theorem makeASCIISet_bit (chars : Bytes) : ∀ (as : List Nat), as.length = 8 → (∀ x ∈ chars, x < 256) →
+    ∃ as', makeASCIISet chars as = .ok as' ∧ as'.length = 8 ∧ ∀ c, c < 256 → bit as' c = (bit as c || chars.contains c) := by
+  induction chars with
+  | nil => intro as hl _; exact ⟨as, rfl, hl, by simp⟩
+  | cons d t ih =>
+    intro as hl hb
+    obtain ⟨as1, h1, hl1, hb1⟩ := asciiStep_bit as hl d (hb d (by simp))
+    obtain ⟨as2, h2, hl2, hb2⟩ := ih as1 hl1 (fun x hx => hb x (by simp [hx]))
+    refine ⟨as2, ?_, hl2, ?_⟩
+    · simp only [makeASCIISet, h1, bind, Except.bind]
+      exact h2
+    · intro c hc
+      rw [hb2 c hc, hb1 c hc]
+      simp only [List.contains_cons]
+      cases bit as c <;> cases (c == d) <;> simp
+
+/-- **Refinement.** The `[8]uint32` bit set built by `MakeASCIISet(chars)` answers `Contains(c)`, for every byte
+`c`, with "c occurs in chars" — what the list-level model (`Cors.asciiContains`) says — and neither function
+indexes the array out of range. -/
+theorem asciiSet_refines (chars : Bytes) (hb : ∀ x ∈ chars, x < 256) :
+    ∃ as, makeASCIISet chars zero8 = .ok as ∧ ∀ c, c < 256 → asciiContains as c = .ok (Cors.asciiContains chars c) := by
+  obtain ⟨as, h1, hl, hbit⟩ := makeASCIISet_bit chars zero8 rfl hb
+  refine ⟨as, h1, ?_⟩
+  intro c hc
+  rw [asciiContains_bit as hl c hc, hbit c hc]
+  have : bit zero8 c = false := by
+    unfold bit zero8
+    have : c / 32 < 8 := by omega
+    have h0 : ([0, 0, 0, 0, 0, 0, 0, 0] : List Nat).getD (c / 32) 0 = 0 := by
+      generalize c / 32 = k at this
+      match k, this with
+      | 0, _ | 1, _ | 2, _ | 3, _ | 4, _ | 5, _ | 6, _ | 7, _ => rfl
+    rw [h0]
+    simp
+  rw [this]
+  simp [Cors.asciiContains]
+
+
+theorem insertG_spec {α : Type} [Inhabited α] (a b : List α) (v : α) (i : Int) (hi : i = a.length) :
+    insertG (a ++ b) i v = .ok (a ++ v :: b) := by
+  subst hi
+  unfold insertG sliceG setG lenG
+  simp only [bind, Except.bind]
+  rw [if_pos (by simp only [List.length_append, List.length_cons, List.length_nil]; omega)]
+  simp only []
+  rw [if_pos (by simp only [List.length_append, List.length_cons, List.length_nil]; omega)]
+  simp only []
+  have e1 : ((a.length : Int) + 1).toNat = a.length + 1 := by omega
+  have e2 : ((((a ++ b ++ [default]).length : Nat) : Int)).toNat = (a ++ b ++ [default]).length := by omega
+  simp only [e1, e2, Int.toNat_natCast, List.take_length]
+  have e3 : (a ++ b ++ [default]).drop (a.length + 1) = (b ++ [default]).drop 1 := by
+    rw [List.append_assoc, List.drop_append]; simp
+  have e4 : (a ++ b ++ [default]).drop a.length = b ++ [default] := by
+    rw [List.append_assoc, List.drop_left]
+  have e5 : (a ++ b ++ [default]).take (a.length + 1) = a ++ (b ++ [default]).take 1 := by
+    rw [List.append_assoc, List.take_append]
+    have : a.length + 1 - a.length = 1 := by omega
+    rw [this, List.take_of_length_le (by omega)]
+  rw [e3, e4, e5]
+  have e6 : ((b ++ [default]).drop 1).length = b.length := by simp
+  rw [e6, List.take_left' rfl]
+  obtain ⟨x, hx⟩ : ∃ x, (b ++ [default]).take 1 = [x] := by
+    cases b with
+    | nil => exact ⟨default, rfl⟩
+    | cons y t => exact ⟨y, rfl⟩
+  rw [hx]
+  rw [if_pos (by simp only [List.length_append, List.length_cons, List.length_nil]; omega)]
+  simp
+
+/-- **Refinement.** `insert(s, i, v)` with `0 ≤ i ≤ len(s)` (what `slices.BinarySearch` returns) stays in range and inserts. -/
+theorem insertG_refines {α : Type} [Inhabited α] (s : List α) (i : Nat) (h : i ≤ s.length) (v : α) :
+    insertG s (i : Int) v = .ok (s.take i ++ v :: s.drop i) := by
+  have := insertG_spec (s.take i) (s.drop i) v (i : Int) (by simp; omega)
+  rwa [List.take_append_drop] at this
+
+/-- **Refinement.** `headers.First`. -/
+theorem first_refines (v : Option (List Bytes)) :
+    first v = .ok (match v with | some (x :: _) => some (x, [x]) | _ => none) := by
+  cases v with
+  | none => rfl
+  | some v =>
+    cases v with
+    | nil => rfl
+    | cons x t =>
+      unfold first
+      have hl : (lenG (x :: t) == 0) = false := by simp [lenG]; omega
+      simp only [hl, Bool.false_eq_true, if_false]
+      have h1 : idxG (x :: t) 0 = .ok x := by
+        have := idxG_ok (x :: t) 0 (by simp)
+        simpa using this
+      have h2 : sliceG (x :: t) 0 1 = .ok [x] := by
+        unfold sliceG lenG
+        rw [if_pos (by simp only [List.length_cons]; omega)]
+        rfl
+      rw [h1]
+      simp only [bind, Except.bind]
+      rw [h2]
+      rfl
+
 end Ix
 end Cors
